@@ -10,6 +10,7 @@ import (
 	"github.com/mlange-42/arche/ecs"
 	"github.com/mlange-42/arche/ecs/event"
 	"github.com/mlange-42/arche/filter"
+	"github.com/mlange-42/arche/generic"
 	"github.com/mlange-42/arche/listener"
 )
 
@@ -44,6 +45,38 @@ type Header struct {
 	TrackPay  bool       `json:"trackPayloads"` // account payload objects with finalizers (C14)
 	Generic   bool       `json:"generic"`       // register the static component types of the generic API adapters (ids 0..12)
 	Ops       []Op       `json:"ops"`
+}
+
+func (x *World) gres0() *generic.Resource[resT0] {
+	if x.gr0 == nil {
+		g := generic.NewResource[resT0](x.w)
+		x.gr0 = &g
+	}
+	return x.gr0
+}
+
+func (x *World) gres1() *generic.Resource[resT1] {
+	if x.gr1 == nil {
+		g := generic.NewResource[resT1](x.w)
+		x.gr1 = &g
+	}
+	return x.gr1
+}
+
+func (x *World) gres2() *generic.Resource[resT2] {
+	if x.gr2 == nil {
+		g := generic.NewResource[resT2](x.w)
+		x.gr2 = &g
+	}
+	return x.gr2
+}
+
+func (x *World) gres3() *generic.Resource[resT3] {
+	if x.gr3 == nil {
+		g := generic.NewResource[resT3](x.w)
+		x.gr3 = &g
+	}
+	return x.gr3
 }
 
 // LSpec describes a listener: subscription bits and component restriction.
@@ -132,6 +165,11 @@ type World struct {
 	lastDump    *ecs.EntityDump
 	pendingPrev map[int64]bool
 	lateTypes   int
+	// generic resource mappers are created once per world and re-used, as user code does
+	gr0 *generic.Resource[resT0]
+	gr1 *generic.Resource[resT1]
+	gr2 *generic.Resource[resT2]
+	gr3 *generic.Resource[resT3]
 }
 
 type recListener struct {
